@@ -3,6 +3,7 @@ package rules
 import (
 	"fmt"
 	"go/token"
+	"sort"
 	"strings"
 
 	"golang.org/x/tools/go/ssa"
@@ -26,8 +27,8 @@ import (
 // summary), so the check survives the cases being folded into helpers.
 
 // veclenOKBlock: block b is the "lengths are equal" successor of a comparison len(x) ==/!= VectorSize.
-func veclenOKBlocks(f *ssa.Function) map[*ssa.BasicBlock]bool {
-	out := map[*ssa.BasicBlock]bool{}
+func veclenOKBlocks(f *ssa.Function) map[*ssa.BasicBlock]string {
+	out := map[*ssa.BasicBlock]string{}
 	for _, b := range f.Blocks {
 		ifi, ok := b.Instrs[len(b.Instrs)-1].(*ssa.If)
 		if !ok {
@@ -59,7 +60,19 @@ func veclenOKBlocks(f *ssa.Function) map[*ssa.BasicBlock]bool {
 			succ = b.Succs[1]
 		}
 		if len(succ.Preds) == 1 {
-			out[succ] = true
+			// which parameter block(s) the dimension is read from
+			sizeV := bo.Y
+			if isSize(bo.X) {
+				sizeV = bo.X
+			}
+			var blocks []string
+			for k := range ssax.Prov(sizeV) {
+				if strings.HasPrefix(k, "field:Vector") && k != "field:VectorSize" {
+					blocks = append(blocks, strings.TrimPrefix(k, "field:"))
+				}
+			}
+			sort.Strings(blocks)
+			out[succ] = strings.Join(blocks, "+")
 		}
 	}
 	return out
@@ -67,17 +80,19 @@ func veclenOKBlocks(f *ssa.Function) map[*ssa.BasicBlock]bool {
 
 func VecLen(w *load.World, c *core.Collector) {
 	props := []string{"C18"}
-	okBlocks := map[*ssa.BasicBlock]bool{}
+	okBlocks := map[*ssa.BasicBlock]string{}
 	for _, f := range w.Fns {
 		if load.PkgPath(f) == load.Mod+"/models" {
-			for b := range veclenOKBlocks(f) {
-				okBlocks[b] = true
+			for b, from := range veclenOKBlocks(f) {
+				okBlocks[b] = from
 			}
 		}
 	}
 	labeller := func(in ssa.Instruction) []string {
-		if b := in.Block(); okBlocks[b] && b.Instrs[0] == in {
-			return []string{"veclen-ok"}
+		if b := in.Block(); b.Instrs[0] == in {
+			if from, ok := okBlocks[b]; ok {
+				return []string{"veclen-ok:" + from}
+			}
 		}
 		return nil
 	}
@@ -134,10 +149,16 @@ func VecLen(w *load.World, c *core.Collector) {
 				continue
 			}
 			n++
+			// the dimension must be that of this index type's own parameter block
+			wantBlock := strings.TrimPrefix(tname, "IndexType")
+			wrongBlock := ""
 			pred := func(in ssa.Instruction) bool {
 				for _, l := range sums.At(in) {
-					if l == "veclen-ok" {
+					if l == "veclen-ok:"+wantBlock {
 						return true
+					}
+					if strings.HasPrefix(l, "veclen-ok:") {
+						wrongBlock = strings.TrimPrefix(l, "veclen-ok:")
 					}
 				}
 				return false
@@ -154,7 +175,11 @@ func VecLen(w *load.World, c *core.Collector) {
 			if ok, at := mustPassFromEdge(ssax.Edge{From: b, Succ: 0}, pred, stop); ok {
 				c.Add("VECLEN", key, core.OK, w.At(ifi), "", props...)
 			} else {
-				c.Add("VECLEN", key, core.Violation, w.At(at), "for an index of type "+cs+" the validator can succeed at "+w.At(at)+" without having compared the vector's length with the index dimension: a vector of the wrong length reaches the distance kernels", props...)
+				msg := "for an index of type " + cs + " the validator can succeed at " + w.At(at) + " without having compared the vector's length with the index dimension: a vector of the wrong length reaches the distance kernels"
+				if wrongBlock != "" {
+					msg = "for an index of type " + cs + " the vector's length is compared with a dimension that is not (only) read from this type's own parameter block " + wantBlock + " but from " + wrongBlock + ": a stray parameter block of another index type decides which vectors are accepted"
+				}
+				c.Add("VECLEN", key, core.Violation, w.At(at), msg, props...)
 			}
 		}
 	}
